@@ -8,7 +8,9 @@
               reader runs the recorded program of a snapshot operation;
    - COwner : the owner nests `with tree:` n times, runs the operation inside, a contender
               probes the lock in the middle and at the end;
-   - CHist  : the global history recorded from FREE-RUNNING writer and reader threads. *)
+   - CHist  : the global history recorded from FREE-RUNNING writer and reader threads (also used for
+              "an operation that raised, then another thread uses the tree");
+   - CInv   : the owner calls an operation inside `with tree:` while a reader is already blocked. *)
 From Coq Require Import List ZArith Bool Arith.
 From NTGen Require Import Generated.
 From NT Require Import Sx RLock Skeleton.
@@ -19,7 +21,8 @@ Inductive case :=
 | CTrace (label : list Z) (tr : list Z)
 | CPark (label : list Z) (tr : list Z) (nw1 nw2 : Z)
 | COwner (label : list Z) (tr : list Z) (nest : Z)
-| CHist (ps : list (list Z)) (sched : list Z) (readers : list Z).
+| CHist (ps : list (list Z)) (sched : list Z) (readers : list Z)
+| CInv (label : list Z) (tr : list Z) (labelw : list Z) (trw : list Z) (nw1 nw2 : Z).
 
 Definition ev_of (z : Z) : ev :=
   match z with 0%Z => EAcq | 1%Z => ERel | 2%Z => ERead | _ => EWrite end.
@@ -116,6 +119,21 @@ Definition run_owner (tr : prog) (nest : nat) : sx :=
      sx_bool (done s3 0); sx_bool (done s4 1); sx_bool (free s4);
      sx_list sx_nat (dedup (reads_seen 0 s4))].
 
+(* the owner runs an operation (program trw) INSIDE its section while the reader (program tr) is
+   already blocked on the tree lock: the owner is never blocked (re-entrancy), whatever the reader
+   does; then it leaves and the reader completes on the committed state *)
+Definition run_inv (tr trw : prog) (nw1 nw2 : nat) : sx :=
+  let w := EAcq :: repeat EWrite nw1 ++ trw ++ repeat EWrite nw2 ++ [ERel] in
+  let s0 := init [w; tr] in
+  let s1 := run (repeat 0 (1 + nw1)) s0 in
+  let s2 := run (repeat 1 (length tr)) s1 in          (* the reader tries: blocked *)
+  let s3 := run (repeat 0 (length trw)) s2 in         (* the owner's nested operation *)
+  let s4 := run (repeat 0 (nw2 + 1)) s3 in
+  let s5 := run (repeat 1 (length tr)) s4 in
+  L [sx_bool (done s2 1); sx_bool (length (nth 0 (progs s3) []) =? nw2 + 1); sx_bool (done s4 0);
+     sx_bool (done s5 1); sx_list sx_nat (dedup (reads_seen 1 s5)); sx_list sx_nat (dedup (reads_seen 0 s5));
+     sx_bool (free s5)].
+
 Definition trace_obs (label : list Z) (p : prog) : sx :=
   L [sx_bool (member label p); sx_bool (bracketed p); sx_nat (nsec 0 p); sx_bool (writes p)].
 
@@ -129,6 +147,9 @@ Definition run18 (c : case) : sx :=
       L [trace_obs label (prog_of_z tr); run_park (prog_of_z tr) (nat_of nw1) (nat_of nw2)]
   | COwner label tr nest =>
       L [trace_obs label (prog_of_z tr); run_owner (prog_of_z tr) (nat_of nest)]
+  | CInv label tr labelw trw nw1 nw2 =>
+      L [trace_obs label (prog_of_z tr); trace_obs labelw (prog_of_z trw);
+         run_inv (prog_of_z tr) (prog_of_z trw) (nat_of nw1) (nat_of nw2)]
   | CHist ps sched readers =>
       (* a history recorded from free-running threads, replayed: it must be a behaviour of the machine
          (every recorded tick enabled, all programs consumed) and the versions the readers saw must be
